@@ -6,6 +6,7 @@ import inspect
 import sys
 import types
 
+from xonsh.lib import verifhooks as _vh
 from xonsh.parser import Parser
 from xonsh.parsers.ast import CtxAwareTransformer
 from xonsh.parsers.base import wrap_subproc_raise_checks
@@ -259,6 +260,15 @@ class Execer:
                 input = input[len(beg_spaces) :]
             max_retries = len(input.splitlines()) * 2 + 10
             while not parsed:
+                _vh.point(
+                    "recovery.iter",
+                    retries=max_retries,
+                    greedy=greedy,
+                    logical=logical_input,
+                    err_line=last_error_line,
+                    err_col=last_error_col,
+                    nlines=len(input.splitlines()),
+                )
                 if max_retries <= 0:
                     # Prevent hanging e.g. #5839
                     raise original_error from None
